@@ -116,6 +116,40 @@ def deref_sites(F):
                 for ck in F.callee_keys(c):
                     if i in ns.unsafe.get(ck, {}):
                         out.append((f, src[0], src[1], c, src[2]))
+    # a local that is ASSIGNED such a result later on (`node = doc->rootNode();`): its uses up to the next assignment of that local, where the
+    # assignment is evaluated on every path to the use
+    for f in F.funcs.values():
+        asg = []
+        for x in f.walk():
+            c_ = x.get('c', [])
+            if ((x.get('k') == 'Call' and x.get('opc') == '=') or (x.get('k') == 'Bin' and x.get('op') == '=')) and len(c_) == 2 and c_[0].get('k') == 'Ref' and c_[0].get('dk') == 'local' and f.enclosing_lambda(x) is None:
+                a = c_[1]
+                while a.get('k') in ('Construct', 'Cast', 'Temp', 'Bind') and len(a.get('c', [])) == 1:
+                    a = a['c'][0]
+                asg.append((x, c_[0]['d'], c_[0]['n'], a, source_kind(a)))
+        if not any(k for x, d, nm, a, k in asg):
+            continue
+        cfg = f.cfg()
+        if cfg is None:
+            continue
+        for x, d, nm, a, k in asg:
+            if not k:
+                continue
+            later = sorted(y.get('l', 0) for y, d2, n2, a2, k2 in asg if d2 == d and y is not x and y.get('l', 0) > x.get('l', 0))
+            upto = later[0] if later else 10 ** 9
+
+            def mine(u):
+                return x.get('l', 0) <= u.get('l', 0) < upto and u['i'] in cfg.pos and cfg.node_dominates(x, u)
+            for n in f.walk():
+                if n.get('k') == 'Call' and n.get('opc') in ('->', '*') and n.get('c') and n['c'][0].get('k') == 'Ref' and n['c'][0].get('d') == d and mine(n):
+                    out.append((f, a, k, n, nm))
+                elif n.get('k') == 'Call' and not n.get('opc') and mine(n):
+                    args = n['c'][1:] if n.get('mc') else n['c']
+                    for i, b in enumerate(args):
+                        while b.get('k') in ('Construct', 'Cast') and len(b.get('c', [])) == 1:
+                            b = b['c'][0]
+                        if b.get('k') == 'Ref' and b.get('d') == d and any(i in ns.unsafe.get(ck, {}) for ck in F.callee_keys(n)):
+                            out.append((f, a, k, n, nm))
     return out
 
 
@@ -126,6 +160,39 @@ def _summaries(F):
     return F._null_summaries
 
 
+def _call_sites_of(F, key):
+    idx = getattr(F, '_call_sites_idx', None)
+    if idx is None:
+        idx = {}
+        for g in F.funcs.values():
+            for c in g.walk():
+                if c.get('k') == 'Call' and not c.get('opc'):
+                    for ck in F.callee_keys(c):
+                        idx.setdefault(ck, []).append((g, c))
+        F._call_sites_idx = idx
+    return idx.get(key, [])
+
+
+def held_by_callers(F, f, member, depth=0):
+    """Every call site of the member function f (all of them in methods of the same object) is reached only where a local that was initialised by
+    locking the SAME weak member is known to be non-null: the caller holds the locked object for the duration of the call."""
+    sites = _call_sites_of(F, f.key)
+    if not sites or depth > 3:
+        return None
+    for g, c in sites:
+        r = receiver(c) if c.get('mc') else None
+        if r is not None and not (is_this_like(r) or render(r) in ('pFunc()',)):
+            return None
+        nn = nonnull_at(g, c) or set()
+        holders = [v['n'] for v in g.walk() if v.get('k') == 'Var' and v.get('c') and any(x.get('k') == 'Call' and x.get('fn') == 'lock' and x.get('c') and render(x['c'][0]).split('->')[-1].split('.')[-1] == member for x in walk(v['c'][0]))]
+        if any(h in nn for h in holders):
+            continue
+        if held_by_callers(F, g, member, depth + 1):
+            continue
+        return None
+    return 'every call site of %s holds a non-null local locked from %s' % (f.short.split('::')[-1], member)
+
+
 def discharged(F, f, src, kind, deref, var):
     nn = nonnull_at(f, deref)
     if nn is None:
@@ -134,6 +201,12 @@ def discharged(F, f, src, kind, deref, var):
         return 'null-tested'
     if not var and (path(src) in nn or render(src) in nn):
         return 'null-tested'
+    if kind == 'weak.lock' and src.get('c'):
+        member = render(src['c'][0]).split('->')[-1].split('.')[-1]
+        if member.startswith('m'):
+            how = held_by_callers(F, f, member)
+            if how:
+                return how
     rc = ff(f).rendered_conds_at(deref) or set()
     if kind in ('nonCommentChildNode', 'mathmlChildNode') and len(src.get('c', [])) == 2:
         # guarded by a count of the same node: nonCommentChildCount(x) == K (or != K false) with K > index
